@@ -10,12 +10,14 @@ import (
 	"github.com/ipld/go-ipld-prime/linking"
 	cidlink "github.com/ipld/go-ipld-prime/linking/cid"
 	"github.com/ipld/go-ipld-prime/node/basicnode"
+	"github.com/ipld/go-ipld-prime/node/bindnode"
 	"github.com/ipld/go-ipld-prime/storage/memstore"
 	"github.com/ipld/go-ipld-prime/zzverif/ref/fnode"
 	"github.com/ipld/go-ipld-prime/zzverif/ref/gen"
 	"github.com/ipld/go-ipld-prime/zzverif/ref/lsys"
 	"github.com/ipld/go-ipld-prime/zzverif/ref/refcbor"
 	"github.com/ipld/go-ipld-prime/zzverif/ref/refval"
+	"github.com/ipld/go-ipld-prime/zzverif/schemas"
 
 	_ "github.com/ipld/go-ipld-prime/codec/cbor"
 	_ "github.com/ipld/go-ipld-prime/codec/dagcbor"
@@ -238,6 +240,54 @@ func canonLex(v *refval.V) *refval.V {
 		return n
 	}
 	return v
+}
+
+// HTypedNode: a schema-typed node whose representation differs from its type-level view
+// (renamed field, tuple) is a value like any other: Store and ComputeLink agree with each other
+// and with the same value built generically, and loading returns that value.
+func HTypedNode() {
+	lsys.Register()
+	ts := schemas.TypeSystem()
+	var typed datamodel.Node
+	var v *refval.V
+	ints := []int64{0, -1, 1 << 40}
+	if nd.Choose("type", 2) == 0 {
+		p := &schemas.Plain{A: ints[nd.Choose("A", 3)], B: nd.String("B", 1), C: nd.Bool("C")}
+		nd.Assume(p.B[0] < 0x80)
+		typed = bindnode.Wrap(p, ts.TypeByName("Plain"))
+		v = refval.MkMap([]string{"A", "B", "C"}, []*refval.V{refval.MkInt(p.A), refval.MkString(p.B), refval.MkBool(p.C)})
+	} else {
+		z := nd.String("Z", 1)
+		p := &schemas.Tuple{X: ints[nd.Choose("X", 3)], Y: nd.String("Y", 1), Z: &z}
+		nd.Assume(p.Y[0] < 0x80 && z[0] < 0x80)
+		typed = bindnode.Wrap(p, ts.TypeByName("Tuple"))
+		v = refval.MkMap([]string{"X", "Y", "Z"}, []*refval.V{refval.MkInt(p.X), refval.MkString(p.Y), refval.MkString(z)})
+	}
+	cc := cases[nd.Choose("codec", 2)] // dag-cbor, dag-json
+	lp, hk := prototype(cc.code)
+	nd.Assume(hk != 3)
+	ls := buildLinkSystem(nd.Choose("storage", 2))
+	var l1, l2, l3 datamodel.Link
+	var err error
+	nd.NoPanic("compute", func() { l1, err = ls.ComputeLink(lp, typed) })
+	nd.Assert(err == nil, "ComputeLink of a typed node")
+	nd.NoPanic("store", func() { l2, err = ls.Store(linking.LinkContext{}, lp, typed) })
+	nd.Assert(err == nil, "Store of a typed node")
+	if l1 == nil || l2 == nil {
+		return
+	}
+	nd.Assert(sameLink(l1, l2), "Store returns the link ComputeLink computes, for typed nodes too")
+	if typed.Length() == int64(len(v.L)) {
+		nd.NoPanic("compute-generic", func() { l3, err = ls.ComputeLink(lp, gen.MustBuild(v)) })
+		nd.Assert(err == nil && sameLink(l1, l3), "the link is that of the same value built generically")
+	}
+	var got datamodel.Node
+	nd.NoPanic("load", func() { got, err = ls.Load(linking.LinkContext{}, l2, basicnode.Prototype.Any) })
+	nd.Assert(err == nil && got != nil, "the stored typed value loads")
+	if got != nil && typed.Length() == int64(len(v.L)) {
+		nd.Assert(refval.Equal(refval.Of(got), refcbor.Canon(v)), "and is the value stored (type-level view, maps in the codec's order)")
+	}
+	nd.Reach("end")
 }
 
 // HAfterFailure: the history starts with an operation that fails part-way through encoding (a
